@@ -50,6 +50,13 @@ func callMatch(p, s string) (res bool, panicked string, hung bool) {
 	case o := <-ch:
 		return o.r, o.p, false
 	case <-time.After(2 * time.Second):
+	}
+	// Patterns and subjects are a few bytes long: a call that has not returned after 2 s is either looping for ever or
+	// this process is not being scheduled (loaded machine). Only the former is a verdict: keep waiting for the same call.
+	select {
+	case o := <-ch:
+		return o.r, o.p, false
+	case <-time.After(60 * time.Second):
 		return false, "", true
 	}
 }
@@ -100,7 +107,7 @@ func main() {
 						got, pan, hung := callMatch(pat, subjects[i])
 						switch {
 						case hung:
-							enc.Encode(fail{"hang", pat, subjects[i], w, "no return within 2s", r.St})
+							enc.Encode(fail{"hang", pat, subjects[i], w, "no return within 62s", r.St})
 							fails++
 							rowBad = true
 						case pan != "":
